@@ -156,7 +156,8 @@ pub open spec fn neg_post(rb: Option<BlockValue>, ms: int, pl: int, m: int, r: R
     &&& (r is Err ==> r->Err_0.code is Some)
     &&& (r is Ok && r->Ok_0 is Some ==> r->Ok_0->0.size_exponent <= 7)
     &&& (rb is Some && r is Ok ==> r->Ok_0 is Some)
-    &&& (r is Ok && r->Ok_0 is None ==> rb is None && pl + ov + 12 < m)
+    // C10: a message left unfragmented fits the budget (ov is measured without the payload marker)
+    &&& (r is Ok && r->Ok_0 is None ==> rb is None && pl + ov + (if pl > 0 { 1int } else { 0int }) <= m)
     &&& (ov + 28 <= m <= 1280 && r is Err ==> rb is Some && !(sz(rb->0.size_exponent) + ov + 32 <= m))
     &&& (ov + 28 <= m <= 1280 && r is Ok && r->Ok_0 is Some ==> {
             let b = r->Ok_0->0;
@@ -167,7 +168,7 @@ pub open spec fn neg_post(rb: Option<BlockValue>, ms: int, pl: int, m: int, r: R
             &&& (rb is Some ==> sz(b.size_exponent) <= sz(rb->0.size_exponent)
                     && (sz(rb->0.size_exponent) + ov + 32 <= m ==> b.size_exponent == rb->0.size_exponent && b.num == rb->0.num)
                     && (b.size_exponent == rb->0.size_exponent ==> b.num == rb->0.num))
-            &&& (rb is None ==> b.num == 0 && b.more && pl >= m - ov - 12)
+            &&& (rb is None ==> b.num == 0 && b.more)
         })
 }
 pub open spec fn deref_opt(rb: Option<&BlockValue>) -> Option<BlockValue> { if rb is Some { Some(*rb->0) } else { None } }
